@@ -42,6 +42,15 @@ CLAIMED = {
  "C14": ("fault_enumeration", "single-fault enumeration (k-th allocation refused; EINTR / EIO at each read index) with trace validation against FlexScanner and FlexHeap",
          "For each scenario a clean run counts allocation requests and read attempts; then one run per allocation index with that request refused and per read index with EINTR or a hard error (through the scanner's own stdio YY_INPUT on cookie streams).  FlexHeap allows nothing after a refusal but the fatal-error hook or the documented error return of yylex_init (ENOMEM/EINVAL, nothing kept); an EINTR run must equal the clean run; a hard error must reach the fatal-error hook.",
          "one fault per run; fault points capped per scenario in the quick tier; read(2) path (%option read) not exercised", "5 C14"),
+ "C16": ("fault_enumeration", "observation tables of flex invocations (write faults on every output, structural mutations, random bytes, limit overruns) judged by TLC against FlexProc (Terminates, NoCrash, ExitHonest, LimitReported)",
+         "The sanitizer build of flex is run on valid specifications with every requested output (scanner via -o and -t, header, tables, backup) failing in every mode (/dev/full, uncreatable path, RLIMIT_FSIZE), on option sets, on structurally mutated and random inputs and on inputs exceeding the documented limits; each invocation becomes one observation and TLC checks the FlexProc invariants on the whole table: terminates, no signal or sanitizer report, status 0 only with every requested output complete, non-zero status only with a diagnostic, a failing write never absorbed.",
+         "input space explored, not exhausted; two open findings on --header-file write failures", "5 C16"),
+ "C18": ("exploration", "two-run self-composition: observations of the same input and options under perturbed environments must be byte-identical (FlexProc!Deterministic, judged by TLC) + bootstrap fixpoint",
+         "Each (input, options) group is generated under allocator perturbation (MALLOC_PERTURB_), arena settings, a 60 kB environment, another working directory, the sanitizer build of flex, and -t versus -o; TLC checks on the observation table that all members of a group have the same exit status and identical scanner, header and tables digests (#line file names masked).  The group includes a 1800-keyword rule set that forces the nxt/chk, DFA and NFA arrays to be reallocated several times.  flex's own scanner regenerated by the flex built from it must reproduce itself.",
+         "environments are a finite list; heap contents perturbed only through MALLOC_PERTURB_ and the sanitizer allocator", "5 C18"),
+ "C20": ("model_checking", "TLC-enumerated (region kind x hostile token sequence) scenarios laid out as specifications; observations (text and __LINE__ seen by the compiled program, #line audit) judged by TLC against FlexUserCode",
+         "FlexUserCode defines the region kinds (%top, %{ %}, indented code, section-2 declarations, one-line, braced and '|' actions, section 3) and the hostile vocabulary (m4 quotes, m4 and flex-internal macro names, $1, $@, quotes, comment delimiters, %%, brackets, backslash); every specification generated from it is run through flex, the C compiler and the resulting program, which prints the bytes and the __LINE__ it was compiled with; TLC checks Accepted, Verbatim, LineAccurate, GenLinesTrue (every #line naming the output file announces its own position) and NolineClean (-L leaves no #line).",
+         "token sequences of length <= 2; hostile text sits in string literals and comments of each region, plus a[a[0]]-style code", "5 C20"),
  "C17": ("model_checking", "exact reachability of 'rule r is selected' in the TLA+ reference automaton (TLC) compared with flex's warnings",
          "TLC enumerates every reachable item state of the reference automaton from every start state; the set of selectable rules is compared with flex's 'rule cannot be matched' and -s default-rule warnings (iff for plain rule sets, no-false-warning for REJECT/variable trailing context).",
          "rule sets sampled", "5 C17"),
